@@ -277,6 +277,8 @@ def check_curve_oracle(case):
 
 
 def check_oracle(case):
+    if not fc.in_domain(case):
+        return None
     return check_poly_oracle(case) if case["kind"] == "poly" else check_curve_oracle(case)
 
 
@@ -309,12 +311,14 @@ def search(ctx, suspects, budget):
         n += 1
         why = check_oracle(case)
         if why:
-            small = fc.shrink_case(case, lambda c: check_oracle(c) is not None)
+            first = fc.signature(why)
+            small = fc.shrink_case(case, lambda c: fc.signature(check_oracle(c)) == first)
             why = check_oracle(small) or why
             kind = why.split(" ")[0] + ":" + small["kind"]
-            if (small["kind"], why[:25]) in seen:
+            sig = (small["kind"], fc.signature(why))
+            if sig in seen:
                 continue
-            seen.add((small["kind"], why[:25]))
+            seen.add(sig)
             out.append(Violation(ID, small["kind"], small, why))
     ctx.notes.append("oracle: {} fits checked against the exact / finite-difference reference".format(n))
     return out
